@@ -117,6 +117,14 @@ func (b *Buffer) GetBlob() (ociregistry.Descriptor, []byte, error) {
 }
 
 // Write implements io.Writer by writing some data to the blob.
+// setCheckStartOffset sets the offset that the next Write call
+// must start at (-1 for no check).
+func (b *Buffer) setCheckStartOffset(offset int64) {
+	b.mu.Lock()
+	defer b.mu.Unlock()
+	b.checkStartOffset = offset
+}
+
 func (b *Buffer) Write(data []byte) (int, error) {
 	b.mu.Lock()
 	defer b.mu.Unlock()
